@@ -35,7 +35,10 @@ TRACE_SPEC = os.path.join(SPECS, "xref", "XRefTrace.tla")
 EOLS = [b"\n", b"\r\n", b"\r"]
 
 
-def realise(hist, eol=b"\n", xref_w=(1, 4, 2)):
+def realise(hist, eol=b"\n", xref_w=(1, 4, 2), zero_type_width=False):
+    """zero_type_width: cross-reference streams that list only type-1 entries (a later revision, no object stream,
+    one /Index range per run so that no free filler entry is needed) are written with /W [0 n m] - the type field has
+    width 0 and every entry defaults to type 1 (ISO 32000-1 table 17)."""
     revs = []
     for k, r in enumerate(hist, 1):
         objs = {}
@@ -49,7 +52,9 @@ def realise(hist, eol=b"\n", xref_w=(1, 4, 2)):
         revs.append(Revision(dict(sorted(objs.items())), form=r["form"], objstm=sorted(p + 2 for p in r["packed"]),
                              split_index=r["split"], objstm_id=r["stmid"] or None, xref_id=r["xid"] or None,
                              root=Ref(1) if k == 1 else None, info={"Rev": k} if (k == 1 or r["newroot"]) else None,
-                             eol=eol, xref_w=xref_w))
+                             eol=eol,
+                             xref_w=((0,) + tuple(xref_w[1:])) if (zero_type_width and k > 1 and r["form"] == "stream"
+                                                                    and not r["packed"] and r["split"]) else xref_w))
     return build(revs)[0]
 
 
@@ -103,14 +108,15 @@ def direction_a1(ck, dev):
             variant += 1
             eol = EOLS[variant % 3]
             w = [(1, 4, 2), (1, 2, 2), (2, 3, 2)][(variant // 3) % 3]
-            hk = (json.dumps(r["hist"], sort_keys=True), eol, w)
+            zw = (variant // 9) % 2 == 1
+            hk = (json.dumps(r["hist"], sort_keys=True), eol, w, zw)
             data = cache.get(hk)
             if data is None:
                 if len(cache) > 4000:
                     cache.clear()
-                data = cache[hk] = realise(r["hist"], eol, w)
+                data = cache[hk] = realise(r["hist"], eol, w, zw)
             bufsiz = [None, 7, 64][variant % 3]
-            replay = {"hist": r["hist"], "caching": r["caching"], "calls": r["calls"], "eol": eol, "w": list(w), "bufsiz": bufsiz}
+            replay = {"hist": r["hist"], "caching": r["caching"], "calls": r["calls"], "eol": eol, "w": list(w), "bufsiz": bufsiz, "zero_type_width": zw}
             try:
                 doc = open_doc(data, r["caching"], bufsiz)
             except Exception as e:
@@ -364,7 +370,7 @@ def direction_b(ck):
             ck.note("sample %s not recorded: %s" % (fn, type(e).__name__))
     for i in range(3 if ck.tier == "quick" else 25):
         hist = many_revision_doc(ck.seed * 100 + i)
-        data = realise(hist, EOLS[i % 3])
+        data = realise(hist, EOLS[i % 3], zero_type_width=(i % 2 == 1))
         recs.append(record_lookups(data, i % 2 == 0, i, "generated 40-revision document #%d" % i, hist=hist))
     recs = [r for r in recs if r["events"]]
     tf = os.path.join(ck.tmp, "c02_traces.json")
@@ -428,7 +434,7 @@ def replay(path):
         except Exception as e:
             print("find_xref raised", type(e).__name__)
     elif "hist" in c:
-        data = realise(c["hist"], c["eol"], tuple(c["w"]))
+        data = realise(c["hist"], c["eol"], tuple(c["w"]), c.get("zero_type_width", False))
         d = open_doc(data, c["caching"], c["bufsiz"])
         for (p, want) in c["calls"]:
             print("getobj(%d) -> %r   expected %r" % (p + 2, fetch(d, p + 2), tuple(want)))
